@@ -837,12 +837,15 @@ def addr_ref(draw, ctx, node=False):
              "framenamedinline", "frameotherinline", "fullinline", "actor", "actorinline"]
     if ctx.get("moot"):
         forms += ["framermain", "framemain", "framermaininline", "framemaininline"] * 2
-    if ctx.get("actors"):
+    usable_actors = [x for x in (ctx.get("actors") or []) if (ctx.get("names") or {}).get(x[2]) != "main"]
+    if usable_actors:
         forms += ["actornamed", "actornamed"]
     form = draw(st.sampled_from(forms))
+    nm = ctx.get("names") or {}
+    notmain = lambda syms: [x for x in syms if nm.get(x) != "main"] or list(syms)
     g = draw(st.sampled_from(sorted(ctx["frames"])))          # some framer (maybe the own one)
-    gf = draw(st.sampled_from(ctx["frames"][g]))              # one of its frames
-    of_ = draw(st.sampled_from(own))                          # one of the own frames
+    gf = draw(st.sampled_from(notmain(ctx["frames"][g])))     # one of its frames (never one named `main`)
+    of_ = draw(st.sampled_from(notmain(own)))                 # one of the own frames
     F = "{%s}" % ctx["framers"][g]
     t = {
         "abs": [".%s.%s" % (draw(st.sampled_from(ADDR_NODE_WORDS)), w)],
@@ -872,7 +875,7 @@ def addr_ref(draw, ctx, node=False):
     }
     info = {"form": form, "w": w, "g": g, "gf": gf, "of": of_, "abs": t["abs"][0]}
     if form == "actornamed":
-        a, af, an = draw(st.sampled_from(ctx["actors"]))
+        a, af, an = draw(st.sampled_from(usable_actors))
         toks = [w, "of", "actor", "{%s}" % a, "of", "frame", "{%s}" % an, "of", "framer", "{%s}" % ctx["framers"][af]]
         info.update(a=a, af=af, an=an)
     else:
@@ -911,6 +914,14 @@ def addr_program(draw):
     # two active framers may use the same string for a frame (separate name spaces) when nothing is cloned
     if nact == 2 and nmoot == 0 and draw(st.booleans()):
         names[frames[1][0]] = names[frames[0][-1]]
+    # an unusual but legal frame name: the relation keyword `main` used as the NAME of a frame (only frames of
+    # framers with >= 2 frames; such a frame is never referenced by name, see addr_ref, because `of frame main`
+    # would mean the keyword)
+    if draw(st.integers(0, 2)) == 0:
+        cands = [i for i in sorted(frames) if len(frames[i]) >= 2]
+        if cands:
+            i = draw(st.sampled_from(cands))
+            names[draw(st.sampled_from(frames[i]))] = "main"
     awords = list(draw(st.permutations(ACTOR_WORDS)))
     twords = list(draw(st.permutations(TAG_WORDS)))
     actors = []
@@ -940,7 +951,8 @@ def addr_program(draw):
     # clone plan: which active/moot framer frames carry `aux moot as ...`
     moots = [i for i in range(len(framers)) if moot_flags[i]]
     for i, fs in enumerate(framers):
-        ctx = {"f": i, "frames": frames, "framers": framers, "moot": moot_flags[i], "actors": actors, "do": False}
+        ctx = {"f": i, "frames": frames, "framers": framers, "moot": moot_flags[i], "actors": actors, "do": False,
+               "names": names}
         t = ["framer", "{%s}" % fs, "be", "moot" if moot_flags[i] else "active", "first", "{%s}" % frames[i][0]]
         ctx["inode_kind"] = None
         if draw(st.booleans()):
